@@ -942,3 +942,401 @@ Definition ex_round : list (Z * step) :=
 (** two seeds that bootstrapped on their own and found each other by gossip (failure detection off) *)
 Definition ex_two : world :=
   match play empty_world [PSteps (firstn 2 wb_prefix); PRounds 3 1050 50] with Some (w, _) => w | None => empty_world end.
+
+(** * Invariants of every reachable world: keys are node addresses, every view (of a node, of a packet) is
+    well-formed in the sense of C17 - so the hypotheses of the exchange-round theorem hold after any history *)
+
+Definition node_ok (n : node) : Prop := WF (nd_view n) /\ wf_state (nd_self n).
+Definition world_inv (w : world) : Prop :=
+  (forall a n, w_nodes w !! a = Some n -> nd_addr n = a /\ node_ok n) /\
+  (forall p, p ∈ w_net w -> WF (p_view p)).
+
+Definition same_base (n n' : node) : Prop := nd_cfg n' = nd_cfg n.
+
+Lemma pl_inv n : nd_view (fst (publish_leader n)) = nd_view n /\ nd_self (fst (publish_leader n)) = nd_self n /\ nd_cfg (fst (publish_leader n)) = nd_cfg n.
+Proof. repeat split; reflexivity. Qed.
+Lemma pdc_inv n : nd_view (fst (publish_dc n)) = nd_view n /\ nd_self (fst (publish_dc n)) = nd_self n /\ nd_cfg (fst (publish_dc n)) = nd_cfg n.
+Proof.
+  unfold publish_dc. destruct (states (nd_view n)); [repeat split; reflexivity|].
+  destruct (nd_dch n) as [was|]; [destruct (eqb was _)|]; repeat split; reflexivity.
+Qed.
+Lemma bc_inv n : nd_view (fst (broadcast n)) = nd_view n /\ nd_self (fst (broadcast n)) = nd_self n /\ nd_cfg (fst (broadcast n)) = nd_cfg n.
+Proof. repeat split; reflexivity. Qed.
+
+Lemma out_wf_app (o1 o2 : list (addr * view)) :
+  (forall d v, (d, v) ∈ o1 -> WF v) -> (forall d v, (d, v) ∈ o2 -> WF v) -> forall d v, (d, v) ∈ o1 ++ o2 -> WF v.
+Proof. intros H1 H2 d v H. apply elem_of_app in H as [H|H]; [eapply H1|eapply H2]; exact H. Qed.
+
+(** what every handler guarantees: same configuration, well-formed result, well-formed payloads *)
+Definition handler_ok (n : node) (r : node * list (addr * view) * list event) : Prop :=
+  nd_cfg (fst (fst r)) = nd_cfg n /\ node_ok (fst (fst r)) /\ forall d v, (d, v) ∈ snd (fst r) -> WF v.
+
+Lemma wf_status s st : wf_state s -> wf_state (ns_set_status s st).
+Proof. intros H. exact H. Qed.
+
+(** publish_leader; broadcast on a node with well-formed view *)
+Lemma finish_ok n0 n1 :
+  nd_cfg n1 = nd_cfg n0 -> node_ok n1 ->
+  forall n2 evs n3 out, publish_leader n1 = (n2, evs) -> broadcast n2 = (n3, out) ->
+  nd_cfg n3 = nd_cfg n0 /\ node_ok n3 /\ (forall d v, (d, v) ∈ out -> WF v) /\ nd_view n3 = nd_view n1 /\ nd_self n3 = nd_self n1.
+Proof.
+  intros Hc [Hv Hs] n2 evs n3 out Ep Eb.
+  destruct (pl_inv n1) as (A1 & A2 & A3). rewrite Ep in A1, A2, A3. cbn [fst] in A1, A2, A3.
+  destruct (bc_inv n2) as (B1 & B2 & B3). rewrite Eb in B1, B2, B3. cbn [fst] in B1, B2, B3.
+  split; [rewrite B3, A3; exact Hc|]. split; [split; [rewrite B1, A1; exact Hv|rewrite B2, A2; exact Hs]|].
+  split; [|split; [rewrite B1, A1; reflexivity|rewrite B2, A2; reflexivity]].
+  intros d v H. change out with (snd (n3, out)) in H. rewrite <- Eb in H. apply broadcast_payload in H. subst v. rewrite A1. exact Hv.
+Qed.
+
+Lemma bootstrap_ok n : node_ok n -> handler_ok n (bootstrap n).
+Proof.
+  intros [Hv Hs]. unfold bootstrap.
+  set (self := ns_set_status (nd_self n) st_up).
+  set (n1 := set_view (set_self n self) _).
+  assert (H1 : node_ok n1).
+  { split; [|exact Hs]. unfold n1; cbn [nd_view set_view]. apply WF_inc, WF_add; [exact Hv|exact Hs]. }
+  destruct (publish_leader n1) as [n2 evs] eqn:Ep. destruct (broadcast n2) as [n3 out] eqn:Eb.
+  destruct (finish_ok n n1 eq_refl H1 n2 evs n3 out Ep Eb) as (C & [Ov Os] & P & _ & _).
+  unfold handler_ok; cbn [fst snd]. split; [exact C|]. split; [split; [exact Ov|exact Os]|exact P].
+Qed.
+
+Lemma join_request_ok n st n' resp out evs :
+  node_ok n -> wf_state st -> handle_join_request n st = Some (n', resp, out, evs) ->
+  nd_cfg n' = nd_cfg n /\ node_ok n' /\ (forall d v, (d, v) ∈ out -> WF v) /\ WF resp.
+Proof.
+  intros [Hv Hs] Hst. unfold handle_join_request.
+  destruct (negb (ns_status st =? st_joining)%Z); [discriminate|].
+  destruct (negb (sat_quorum (nd_view n))); [discriminate|].
+  set (v1 := view_inc _ _). set (n1 := set_view n v1).
+  assert (H1 : node_ok n1).
+  { split; [|exact Hs]. unfold n1, v1; cbn [nd_view set_view]. apply WF_inc, WF_add; [exact Hv|exact Hst]. }
+  destruct (publish_leader n1) as [n2 ev2] eqn:Ep. destruct (broadcast n2) as [n3 o3] eqn:Eb.
+  intros [= <- <- <- <-].
+  destruct (finish_ok n n1 eq_refl H1 n2 ev2 n3 o3 Ep Eb) as (C & Ok3 & P & _ & _).
+  split; [exact C|]. split; [exact Ok3|]. split; [exact P|].
+  destruct (pl_inv n1) as (A1 & _ & _). rewrite Ep in A1. cbn [fst] in A1. unfold view_snapshot. rewrite A1. apply H1.
+Qed.
+
+Lemma join_complete_ok n resp now : node_ok n -> WF resp -> handler_ok n (join_complete n resp now).
+Proof.
+  intros [Hv Hs] Hr. unfold join_complete.
+  set (self1 := ns_set_status (nd_self n) st_up).
+  set (v3 := fst (view_merge 0 0 now _ resp)).
+  assert (W3 : WF v3).
+  { unfold v3. apply WF_merge; [apply WF_inc, WF_add; [exact Hv|exact Hs]|exact Hr]. }
+  destruct (view_rejoin self1 v3 now) as [self2 v4] eqn:Er.
+  assert (W4 : WF v4) by (change v4 with (snd (self2, v4)); rewrite <- Er; apply WF_rejoin; [exact W3|exact Hs]).
+  assert (S2 : wf_state self2) by (change self2 with (fst (self2, v4)); rewrite <- Er; apply wf_rejoin_state; [exact W3|exact Hs]).
+  set (n1 := set_view (set_self n self2) v4).
+  assert (H1 : node_ok n1) by (split; assumption).
+  destruct (publish_leader n1) as [n2 evs] eqn:Ep. destruct (broadcast n2) as [n3 out] eqn:Eb.
+  destruct (finish_ok n n1 eq_refl H1 n2 evs n3 out Ep Eb) as (C & [Ov Os] & P & _ & _).
+  unfold handler_ok; cbn [fst snd]. split; [exact C|]. split; [split; [exact Ov|exact Os]|exact P].
+Qed.
+
+Lemma handle_gossip_ok n src v now choice : node_ok n -> WF v -> handler_ok n (handle_gossip n src v now choice).
+Proof.
+  intros [Hv Hs] Hw. split; [apply handle_gossip_cfg|]. split; [split|].
+  - apply (handle_gossip_proj n src v now choice Hv Hw).
+  - (* the own NodeState is not touched *)
+    unfold handle_gossip.
+    set (n1 := if nonempty src then _ else n).
+    assert (E1 : nd_self n1 = nd_self n) by (unfold n1; destruct (nonempty src); reflexivity).
+    set (n2 := match choice with Some _ => _ | None => _ end).
+    assert (E2 : nd_self n2 = nd_self n) by (unfold n2; destruct choice; [destruct (nonempty src)|]; cbn; rewrite ?E1; reflexivity).
+    destruct (view_merge 0 0 now (nd_view n2) v) as [v' ch]. destruct ch; [|cbn; rewrite E2; exact Hs].
+    destruct (publish_leader (set_view n2 v')) as [n4 evs] eqn:Ep. destruct (broadcast n4) as [n5 out] eqn:Eb. cbn [fst].
+    destruct (pl_inv (set_view n2 v')) as (_ & A2 & _). rewrite Ep in A2. cbn [fst] in A2.
+    destruct (bc_inv n4) as (_ & B2 & _). rewrite Eb in B2. cbn [fst] in B2. rewrite B2, A2. cbn. rewrite E2. exact Hs.
+  - intros d pv H. apply handle_gossip_payload in H. subst pv. apply (handle_gossip_proj n src v now choice Hv Hw).
+Qed.
+
+Lemma gossip_tick_ok n : node_ok n -> handler_ok n (gossip_tick n).
+Proof.
+  intros [Hv Hs]. split; [apply gossip_tick_cfg|]. split; [split|].
+  - rewrite gossip_tick_view. exact Hv.
+  - rewrite gossip_tick_node. exact Hs.
+  - intros d v H. apply gossip_tick_payload in H. subst v. exact Hv.
+Qed.
+
+Lemma suspect_fold_WF self l v : WF v -> WF (fold_left (suspect_one self) l v).
+Proof.
+  revert v. induction l as [|id l IH]; intros v Hv; cbn; [exact Hv|]. apply IH.
+  unfold suspect_one. destruct (vw_members v !! id); [|exact Hv]. apply WF_inc, WF_set_status. exact Hv.
+Qed.
+Lemma remove_fold_WF self l acc : WF (fst acc) -> WF (fst (fold_left (remove_one self) l acc)).
+Proof.
+  revert acc. induction l as [|id l IH]; intros acc Hv; cbn; [exact Hv|]. apply IH.
+  unfold remove_one. cbn [fst]. apply WF_inc, WF_remove. exact Hv.
+Qed.
+
+Lemma fd_tick_ok n now : node_ok n -> handler_ok n (fst (fd_tick n now)).
+Proof.
+  intros [Hv Hs]. unfold fd_tick. destruct (fd_detect n now) as [sus rem].
+  set (v1 := fold_left (suspect_one (nd_id n)) sus (nd_view n)).
+  assert (W1 : WF v1) by (apply suspect_fold_WF; exact Hv).
+  set (n1 := set_view n v1).
+  assert (R1 : exists n2 out1 ev1, match sus with [] => (n1, [], []) | _ :: _ => let '(m, o) := broadcast n1 in (m, o, [ev_view v1 0 []]) end = (n2, out1, ev1) /\
+                 nd_cfg n2 = nd_cfg n /\ nd_view n2 = v1 /\ nd_self n2 = nd_self n /\ forall d v, (d, v) ∈ out1 -> WF v).
+  { destruct sus.
+    - exists n1, [], []. split; [reflexivity|]. split; [reflexivity|]. split; [reflexivity|]. split; [reflexivity|]. intros d v H. inversion H.
+    - destruct (broadcast n1) as [m o] eqn:Eb. exists m, o, [ev_view v1 0 []]. split; [reflexivity|].
+      destruct (bc_inv n1) as (B1 & B2 & B3). rewrite Eb in B1, B2, B3. cbn [fst] in B1, B2, B3.
+      split; [exact B3|]. split; [exact B1|]. split; [exact B2|].
+      intros d v H. change o with (snd (m, o)) in H. rewrite <- Eb in H. apply broadcast_payload in H. subst v. exact W1. }
+  destruct R1 as (n2 & out1 & ev1 & -> & C2 & V2 & S2 & P1).
+  destruct (fold_left (remove_one (nd_id n)) rem (nd_view n2, [])) as [v2 removed] eqn:Ef.
+  assert (W2 : WF v2).
+  { change v2 with (fst (v2, removed)). rewrite <- Ef. apply remove_fold_WF. cbn [fst]. rewrite V2. exact W1. }
+  set (removed' := isort lex_le removed). set (n3 := set_view n2 v2).
+  assert (R2 : exists n4 out2 ev2, match removed' with [] => (n3, [], []) | _ :: _ => let '(m, o) := broadcast n3 in (m, o, [EMembers (member_addrs v2) 0 removed'; ev_view v2 0 removed']) end = (n4, out2, ev2) /\
+                 nd_cfg n4 = nd_cfg n /\ nd_view n4 = v2 /\ nd_self n4 = nd_self n /\ forall d v, (d, v) ∈ out2 -> WF v).
+  { destruct removed'.
+    - exists n3, [], []. split; [reflexivity|]. split; [exact C2|]. split; [reflexivity|]. split; [exact S2|]. intros d v H. inversion H.
+    - destruct (broadcast n3) as [m o] eqn:Eb. eexists m, o, _. split; [reflexivity|].
+      destruct (bc_inv n3) as (B1 & B2 & B3). rewrite Eb in B1, B2, B3. cbn [fst] in B1, B2, B3.
+      split; [rewrite B3; exact C2|]. split; [exact B1|]. split; [rewrite B2; exact S2|].
+      intros d v H. change o with (snd (m, o)) in H. rewrite <- Eb in H. apply broadcast_payload in H. subst v. exact W2. }
+  destruct R2 as (n4 & out2 & ev2 & -> & C4 & V4 & S4 & P2).
+  destruct (publish_leader n4) as [n5 ev3] eqn:Ep. destruct (publish_dc n5) as [n6 ev4] eqn:Ed.
+  destruct (pl_inv n4) as (A1 & A2 & A3). rewrite Ep in A1, A2, A3. cbn [fst] in A1, A2, A3.
+  destruct (pdc_inv n5) as (D1 & D2 & D3). rewrite Ed in D1, D2, D3. cbn [fst] in D1, D2, D3.
+  unfold handler_ok; cbn [fst snd]. split; [congruence|]. split; [split; [rewrite D1, A1, V4; exact W2|rewrite D2, A2, S4; exact Hs]|].
+  apply out_wf_app; assumption.
+Qed.
+
+Lemma recovery_merge_ok n resp now :
+  node_ok n -> WF resp ->
+  nd_cfg (fst (recovery_merge n resp now)) = nd_cfg n /\ node_ok (fst (recovery_merge n resp now)) /\
+  forall d v, (d, v) ∈ snd (recovery_merge n resp now) -> WF v.
+Proof.
+  intros [Hv Hs] Hr. unfold recovery_merge.
+  destruct (view_merge 0 0 now (nd_view n) resp) as [v' ch] eqn:Em.
+  assert (W : WF v') by (change v' with (fst (v', ch)); rewrite <- Em; apply WF_merge; assumption).
+  destruct ch.
+  - destruct (bc_inv (set_view n v')) as (B1 & B2 & B3). split; [exact B3|]. split; [split; [rewrite B1; exact W|rewrite B2; exact Hs]|].
+    intros d v H. apply broadcast_payload in H. subst v. exact W.
+  - cbn [fst snd]. split; [reflexivity|]. split; [split; [exact W|exact Hs]|]. intros d v H. inversion H.
+Qed.
+
+Lemma leave_ok n : node_ok n -> handler_ok n (leave n).
+Proof.
+  intros [Hv Hs]. pose proof (leave_not_announced n) as [Lv Lp].
+  split; [|split; [split|]].
+  - unfold leave. destruct (_ =? st_joining)%Z; [reflexivity|]. destruct (_ || _); [reflexivity|].
+    destruct (broadcast _) as [n2 out] eqn:Eb. cbn [fst].
+    destruct (bc_inv (set_self (set_timers n false false false) (ns_set_status (nd_self n) st_leaving))) as (_ & _ & B3).
+    rewrite Eb in B3. cbn [fst] in B3. exact B3.
+  - rewrite Lv. exact Hv.
+  - unfold leave. destruct (_ =? st_joining)%Z; [exact Hs|]. destruct (_ || _); [exact Hs|].
+    destruct (broadcast _) as [n2 out] eqn:Eb. cbn [fst nd_self set_self]. apply wf_status.
+    destruct (bc_inv (set_self (set_timers n false false false) (ns_set_status (nd_self n) st_leaving))) as (_ & B2 & _).
+    rewrite Eb in B2. cbn [fst] in B2. rewrite B2. exact Hs.
+  - intros d v H. rewrite (Lp d v H). exact Hv.
+Qed.
+
+Lemma force_down_ok n id : node_ok n -> handler_ok n (force_down n id).
+Proof.
+  intros [Hv Hs]. unfold force_down. destruct id as [|b r].
+  - split; [reflexivity|]. split; [split; assumption|]. intros d v H. inversion H.
+  - destruct (vw_members (nd_view n) !! (b :: r)) as [m|].
+    + set (v1 := view_inc _ _). set (n1 := set_view n v1).
+      assert (H1 : node_ok n1) by (split; [unfold n1, v1; cbn [nd_view set_view]; apply WF_inc, WF_remove; exact Hv|exact Hs]).
+      destruct (publish_leader n1) as [n2 evs] eqn:Ep. destruct (broadcast n2) as [n3 out] eqn:Eb.
+      destruct (finish_ok n n1 eq_refl H1 n2 evs n3 out Ep Eb) as (C & Ok3 & P & _ & _).
+      unfold handler_ok; cbn [fst snd]. auto.
+    + split; [reflexivity|]. split; [split; assumption|]. intros d v H. inversion H.
+Qed.
+
+Lemma world_inv_empty : world_inv empty_world.
+Proof. split; [intros a n H; cbn in H; rewrite lookup_empty in H; discriminate|intros p H; inversion H]. Qed.
+
+Lemma stamp_wf src out p : (forall d v, (d, v) ∈ out -> WF v) -> p ∈ stamp src out -> WF (p_view p).
+Proof. intros H Hp. unfold stamp in Hp. apply elem_of_list_fmap in Hp as ([d v] & -> & Hdv). cbn. eapply H; exact Hdv. Qed.
+
+Lemma inv_update w n src out :
+  world_inv w -> node_ok n -> (forall d v, (d, v) ∈ out -> WF v) ->
+  world_inv (add_net (put_node w n) (stamp src out)).
+Proof.
+  intros [Hn Hp] Hok Hout. split; cbn.
+  - intros a m Ha. destruct (decide (a = nd_addr n)) as [->|Hne].
+    + rewrite lookup_insert in Ha. injection Ha as <-. split; [reflexivity|exact Hok].
+    + rewrite lookup_insert_ne in Ha by congruence. apply (Hn a m Ha).
+  - intros p H. apply elem_of_app in H as [H|H]; [apply (Hp p H)|eapply stamp_wf; eassumption].
+Qed.
+
+Lemma inv_update_nodes w n : world_inv w -> node_ok n -> world_inv (put_node w n).
+Proof.
+  intros Hw Hok. pose proof (inv_update w n [] [] Hw Hok) as H. unfold add_net, stamp in H; cbn in H.
+  rewrite app_nil_r in H. apply H. intros d v Hd. inversion Hd.
+Qed.
+
+Lemma node_ok_timers n g f r : node_ok n -> node_ok (set_timers n g f r).
+Proof. intros H. exact H. Qed.
+
+Lemma new_node_ok c now : node_ok (new_node c now).
+Proof. split; [apply WF_new|apply wf_new_node_state]. Qed.
+
+Lemma try_join_inv asks : forall w n now log w' n' joined log',
+  world_inv w -> node_ok n -> try_join w n now asks log = (w', n', joined, log') -> world_inv w' /\ node_ok n'.
+Proof.
+  induction asks as [|[s ok] rest IH]; intros w n now log w' n' joined log' Hw Hn H; cbn [try_join] in H.
+  - injection H as <- <- _ _. auto.
+  - destruct (negb ok || bool_decide (s = nd_addr n)); [eapply IH; eassumption|].
+    destruct (w_nodes w !! s) as [sd|] eqn:Es; [|eapply IH; eassumption].
+    destruct (handle_join_request sd (nd_self n)) as [[[[sd' resp] out] evs]|] eqn:Ej; [|eapply IH; eassumption].
+    destruct (proj1 Hw s sd Es) as [_ Hsd].
+    destruct (join_request_ok sd (nd_self n) sd' resp out evs Hsd (proj2 Hn) Ej) as (_ & Hsd' & Hout & Hresp).
+    destruct (join_complete n resp now) as [[n1 out1] evs1] eqn:Ec.
+    pose proof (join_complete_ok n resp now Hn Hresp) as (_ & Hn1 & Hout1). rewrite Ec in Hn1, Hout1. cbn [fst snd] in Hn1, Hout1.
+    injection H as <- <- _ _. split; [|exact Hn1].
+    pose proof (inv_update w sd' s out Hw Hsd' Hout) as Hw1.
+    destruct Hw1 as [Hw1n Hw1p]. split; [exact Hw1n|].
+    intros p Hp. cbn in Hp. apply elem_of_app in Hp as [Hp|Hp]; [apply Hw1p; exact Hp|eapply stamp_wf; eassumption].
+Qed.
+
+Lemma join_or_retry_inv w n now asks w' log :
+  world_inv w -> node_ok n -> join_or_retry w n now asks = (w', log) -> world_inv w'.
+Proof.
+  intros Hw Hn H. unfold join_or_retry in H.
+  destruct (try_join w n now asks []) as [[[w1 n1] joined] lg] eqn:Et.
+  destruct (try_join_inv asks w n now [] w1 n1 joined lg Hw Hn Et) as [Hw1 Hn1].
+  destruct joined; injection H as <- _; apply inv_update_nodes; assumption.
+Qed.
+
+Lemma try_recover_inv fuel : forall w n now seeds asks,
+  world_inv w -> node_ok n ->
+  node_ok (fst (try_recover w n now seeds asks fuel)) /\ forall d v, (d, v) ∈ snd (try_recover w n now seeds asks fuel) -> WF v.
+Proof.
+  induction fuel as [|fuel IH]; intros w n now seeds asks Hw Hn; cbn [try_recover].
+  - destruct seeds; (split; [exact Hn|intros d v H; inversion H]).
+  - destruct seeds as [|s seeds']; cbn [try_recover]; [split; [exact Hn|intros d v H; inversion H]|].
+    cbv zeta. match goal with |- context [if ?b then _ else _] => destruct b end; [apply IH; assumption|].
+    destruct (w_nodes w !! s) as [sd|] eqn:Es; [|apply IH; assumption].
+    destruct (proj1 Hw s sd Es) as [_ [Hsd _]].
+    destruct (recovery_merge_ok n (get_view_reply sd) now Hn Hsd) as (_ & H1 & H2). split; assumption.
+Qed.
+
+Theorem step_world_inv w now s w' l : world_inv w -> step_world w now s = Some (w', l) -> world_inv w'.
+Proof.
+  intros Hw H. destruct s as [c asks|a asks|a|a asks|k choice|k|a|a|a id]; cbn [step_world] in H.
+  - destruct (negb (nonempty (c_addr c))); [discriminate|].
+    destruct (w_nodes w !! c_addr c); [discriminate|].
+    destruct (launch_is_seed c).
+    + destruct (bootstrap (new_node c now)) as [[n1 out] evs] eqn:Eb. injection H as <- _.
+      pose proof (bootstrap_ok (new_node c now) (new_node_ok c now)) as (_ & H1 & H2). rewrite Eb in H1, H2.
+      apply inv_update; assumption.
+    + destruct (join_or_retry w (new_node c now) now asks) as [w1 lg] eqn:Ej. injection H as <- _.
+      eapply join_or_retry_inv; [exact Hw|apply new_node_ok|exact Ej].
+  - destruct (w_nodes w !! a) as [n|] eqn:E; [|discriminate]. destruct (nd_retry_on n); [|discriminate].
+    destruct (join_or_retry w _ now asks) as [w1 lg] eqn:Ej. injection H as <- _.
+    eapply join_or_retry_inv; [exact Hw| |exact Ej]. apply node_ok_timers. apply (proj1 Hw a n E).
+  - destruct (w_nodes w !! a) as [n|] eqn:E; [|discriminate]. destruct (nd_gossip_on n); [|discriminate].
+    destruct (gossip_tick n) as [[n1 out] evs] eqn:Eg. injection H as <- _.
+    pose proof (gossip_tick_ok n (proj2 (proj1 Hw a n E))) as (_ & H1 & H2). rewrite Eg in H1, H2.
+    apply inv_update; assumption.
+  - destruct (w_nodes w !! a) as [n|] eqn:E; [|discriminate]. destruct (nd_fd_on n); [|discriminate].
+    destruct (fd_tick n now) as [[[n1 out] evs] rec] eqn:Ef.
+    pose proof (fd_tick_ok n now (proj2 (proj1 Hw a n E))) as (_ & H1 & H2). rewrite Ef in H1, H2. cbn [fst snd] in H1, H2.
+    destruct (if rec then try_recover w n1 now (c_seeds (nd_cfg n1)) asks max_get_view_targets else (n1, [])) as [n2 out2] eqn:Er.
+    injection H as <- _.
+    assert (Hr : node_ok n2 /\ forall d v, (d, v) ∈ out2 -> WF v).
+    { destruct rec.
+      - pose proof (try_recover_inv max_get_view_targets w n1 now (c_seeds (nd_cfg n1)) asks Hw H1) as [R1 R2].
+        rewrite Er in R1, R2. auto.
+      - injection Er as <- <-. split; [exact H1|intros d v Hd; inversion Hd]. }
+    destruct Hr as [R1 R2]. apply inv_update; [exact Hw|exact R1|]. apply out_wf_app; assumption.
+  - destruct (N.of_nat (length (w_net w)) <=? k); [discriminate|].
+    destruct (w_net w !! N.to_nat k) as [p|] eqn:Ek; [|discriminate].
+    assert (Hpw : WF (p_view p)) by (apply (proj2 Hw), elem_of_list_lookup_2 with (N.to_nat k); exact Ek).
+    assert (Hw1 : world_inv (World (w_nodes w) (remove_at k (w_net w)))).
+    { split; [exact (proj1 Hw)|]. intros q Hq. cbn in Hq. apply elem_of_remove_at in Hq. apply (proj2 Hw q Hq). }
+    destruct (w_nodes w !! p_dst p) as [n|] eqn:E.
+    + match type of H with (if ?b then _ else None) = _ => destruct b end; [|discriminate].
+      destruct (handle_gossip n (p_src p) (p_view p) now choice) as [[n1 out] evs] eqn:Eg. injection H as <- _.
+      pose proof (handle_gossip_ok n (p_src p) (p_view p) now choice (proj2 (proj1 Hw _ n E)) Hpw) as (_ & H1 & H2).
+      rewrite Eg in H1, H2. apply inv_update; assumption.
+    + destruct choice; [discriminate|]. injection H as <- _. exact Hw1.
+  - destruct (N.of_nat (length (w_net w)) <=? k); [discriminate|]. injection H as <- _.
+    split; [exact (proj1 Hw)|]. intros q Hq. cbn in Hq. apply elem_of_remove_at in Hq. apply (proj2 Hw q Hq).
+  - destruct (w_nodes w !! a) as [n|] eqn:E; [|discriminate]. injection H as <- _.
+    split; [|exact (proj2 Hw)]. intros b m Hb. cbn in Hb. apply lookup_delete_Some in Hb as [_ Hb]. apply (proj1 Hw b m Hb).
+  - destruct (w_nodes w !! a) as [n|] eqn:E; [|discriminate].
+    destruct (leave n) as [[n1 out] evs] eqn:El. injection H as <- _.
+    pose proof (leave_ok n (proj2 (proj1 Hw a n E))) as (_ & _ & H2). rewrite El in H2. cbn [fst snd] in H2.
+    split; cbn.
+    + intros b m Hb. apply lookup_delete_Some in Hb as [_ Hb]. apply (proj1 Hw b m Hb).
+    + intros q Hq. apply elem_of_app in Hq as [Hq|Hq]; [apply (proj2 Hw q Hq)|eapply stamp_wf; eassumption].
+  - destruct (w_nodes w !! a) as [n|] eqn:E; [|discriminate].
+    destruct (force_down n id) as [[n1 out] evs] eqn:Ef. injection H as <- _.
+    pose proof (force_down_ok n id (proj2 (proj1 Hw a n E))) as (_ & H1 & H2). rewrite Ef in H1, H2.
+    apply inv_update; assumption.
+Qed.
+
+Theorem run_inv sc : forall w w' l, world_inv w -> run w sc = Some (w', l) -> world_inv w'.
+Proof.
+  induction sc as [|[now s] rest IH]; intros w w' l Hw H; cbn [run] in H.
+  - injection H as <- _. exact Hw.
+  - destruct (step_world w now s) as [[w1 l1]|] eqn:E; [|discriminate].
+    destruct (run w1 rest) as [[w2 l2]|] eqn:E2; [|discriminate]. injection H as <- _.
+    eapply IH; [eapply step_world_inv; eassumption|exact E2].
+Qed.
+
+(** every world reachable from the empty one, whatever the history *)
+Theorem reachable_inv sc w l :
+  run empty_world sc = Some (w, l) ->
+  (forall a n, w_nodes w !! a = Some n -> nd_addr n = a) /\
+  (forall a n, w_nodes w !! a = Some n -> WF (nd_view n)) /\
+  (forall p, p ∈ w_net w -> WF (p_view p)).
+Proof.
+  intros H. destruct (run_inv sc empty_world w l world_inv_empty H) as [Hn Hp].
+  split; [intros a n Ha; apply (Hn a n Ha)|]. split; [intros a n Ha; apply (Hn a n Ha)|exact Hp].
+Qed.
+
+(** the exchange round after ANY history that leaves nothing in flight *)
+Theorem exchange_round_reachable hist w0 l0 sc w1 l :
+  run empty_world hist = Some (w0, l0) -> w_net w0 = [] ->
+  forallb (fun p => round_step (snd p)) sc = true ->
+  run w0 sc = Some (w1, l) ->
+  exists aw1, arun (annotate w0) sc = Some (aw1, l) /\ erase aw1 = w1 /\
+    (all_reached w0 aw1 ->
+     forall a n, w_nodes w1 !! a = Some n ->
+       WF (nd_view n) /\ proj (nd_view n) = pjoin_all (all_views0 w0)).
+Proof.
+  intros Hh Hnet Hsc Hr. destruct (reachable_inv hist w0 l0 Hh) as (H1 & H2 & _).
+  exact (exchange_round w0 sc w1 l H1 H2 Hnet Hsc Hr).
+Qed.
+
+(** (e2) restart under a fresh NodeID, MemberByAddress yielding the predecessor's entry at every delivery *)
+Definition wg_P (w1 : world) (l1 : evlog) (w2 : world) (logs : list evlog) : bool :=
+  (length (rounds_of wg_play 40) =? 40)%nat &&
+  forallb (removal_of_running w2) (skipn 30 logs) &&
+  match w_nodes w2 !! ad1, w_nodes w2 !! ad2 with
+  | Some s, Some k =>
+      bool_decide (nd_id k = [107]) && lists_id s [106] && lists_id k [106] &&
+      bool_decide (ns_seen <$> (vw_members (nd_view s) !! [106]) = Some 3100%Z) &&
+      bool_decide (ns_seen <$> (vw_members (nd_view s) !! [107]) = Some 1110%Z)
+  | _, _ => false
+  end.
+Lemma wg_check :
+  exists w1 l1 w2 logs,
+    run empty_world (faults_of wg_play 40) = Some (w1, l1) /\
+    fair_rounds w1 1150 50 (rounds_of wg_play 40) = Some (w2, logs) /\ wg_P w1 l1 w2 logs = true.
+Proof. apply witness_intro. vm_compute. reflexivity. Qed.
+
+(** (c2) the new incarnation of a restarted node is never propagated once the vectors are equal *)
+Definition wh_P (w1 : world) (l1 : evlog) (w2 : world) (logs : list evlog) : bool :=
+  (length (rounds_of wh_play 30) =? 30)%nat && forallb quiet logs &&
+  match w_nodes w2 !! ad1, w_nodes w2 !! ad2 with
+  | Some s, Some j =>
+      bool_decide (inc_of (nd_self j) = (3%Z, 3)) &&
+      bool_decide (proj (nd_view j) !! [106] = Some (3%Z, 3)) &&
+      bool_decide (proj (nd_view s) !! [106] = Some (2%Z, 2)) &&
+      bool_decide (vw_vv (nd_view s) = vw_vv (nd_view j))
+  | _, _ => false
+  end.
+Lemma wh_check :
+  exists w1 l1 w2 logs,
+    run empty_world (faults_of wh_play 30) = Some (w1, l1) /\
+    fair_rounds w1 1250 50 (rounds_of wh_play 30) = Some (w2, logs) /\ wh_P w1 l1 w2 logs = true.
+Proof. apply witness_intro. vm_compute. reflexivity. Qed.
